@@ -690,6 +690,19 @@ TrShutdownResult ==
                  lastAdd, replies, closeT, faultT, idle, ka, runStart, lastSend, quietLen,
                  callListed, pathOut, pathIn, closingH, beginT, shutIdle>>
 
+(* what one caller of shutdown() finds at the instant its own call returns: Ok means the    *)
+(* whole sequence is over - for every caller, also one whose request was queued behind       *)
+(* another's - so the network is closed, lists nobody, its address is free and no clone of   *)
+(* the service is left; a caller that gets an error was not the one being answered           *)
+TrShutdownReturn ==
+  /\ IsEvent("obs.shutdown_return")
+  /\ ~Cur.hang
+  /\ Cur.ok => /\ phase[N] = "done"
+               /\ Cur.closed /\ Cur.peers = 0 /\ Cur.rebind /\ Cur.live_services = 0
+  /\ UNCHANGED <<vars, pendEv, conns, tasks, spawnQ, nextTick, phase, subs, subPos, addrNode,
+                 lastAdd, replies, closeT, faultT, idle, ka, runStart, lastSend, quietLen,
+                 callListed, pathOut, pathIn, closingH, beginT, shutIdle>>
+
 (* API calls issued after shutdown fail, they do not hang *)
 TrApiAfter ==
   /\ IsEvent("obs.api_after")
@@ -857,7 +870,7 @@ TraceNext ==
   \/ TrApSubscribe \/ TrObsSubscribe \/ TrObsEvent \/ TrSubClosed \/ TrObsPeers
   \/ TrConnectResult \/ TrConnectRefused \/ TrConnectAborted
   \/ TrShutBegin \/ TrShutClosed \/ TrShutAborted \/ TrShutJoined \/ TrShutIdle \/ TrShutDone
-  \/ TrShutdownResult \/ TrApiAfter
+  \/ TrShutdownResult \/ TrShutdownReturn \/ TrApiAfter
   \/ TrQuiesce \/ TrConverged \/ TrSettled \/ TrAcceptNone \/ TrSrvEnd \/ TrPath \/ TrRpcCall \/ TrRpcResult \/ TrRpcOpen \/ TrSilentEnd \/ TrIgnored
 
 TraceSpec == TraceInit /\ [][TraceNext]_allvars
